@@ -78,6 +78,31 @@ def gen_index_case(rng):
     return ['{w: {a: %s}, keep: 1}' % r(lst), '{w: {a: %s}}' % r(upd_map), '{keep: 2}']
 
 
+def judge_incremental(texts):
+    """ONE builder: a document is added, the config is built, the next document is added, ... ; every intermediate build must be the fold of
+    the documents added so far, and building twice in a row must not change anything"""
+    from awesomeyaml import errors
+    from awesomeyaml.builder import Builder
+    docs = [pyyaml.load(t, Loader=pyyaml.SafeLoader) for t in texts]
+    b = Builder()
+    exp = None
+    for i, (t, d) in enumerate(zip(texts, docs)):
+        try:
+            exp = d if i == 0 else upd(exp, d)
+            e = ('ok', base.typed(exp))
+        except RefMergeError:
+            return None            # a MergeError inside a history leaves the builder in an unspecified state: out of scope
+        b.add_source(t, raw_yaml=True, filename=f'<s{i}>')
+        for attempt in (1, 2):
+            try:
+                got = ('ok', base.typed(base.to_plain(b.build())))
+            except errors.MergeError:
+                got = ('merge-error', None)
+            if got != e:
+                return dict(texts=texts[:i + 1], reason=f'build number {attempt} after adding document {i} is not the fold of the documents added so far', expected=e, got=got)
+    return None
+
+
 def run(rep, tier, rng):
     rep.rule = ('histories of 1-4 tag-free mapping documents over keys {a,b,c,r,0,1,2} (later documents are mutations of earlier ones: '
                 'type changes at a path, mappings addressing list indices incl. negative/out-of-range, empty containers) plus directed histories in which a mapping with 2-4 integer keys in any order meets a list; '
@@ -94,6 +119,8 @@ def run(rep, tier, rng):
     for _ in range(300 if tier == 'quick' else 6000):
         extra.append(mergecorr.history_texts(gen.gen_history(rng, prof, 2, 5)))
     base.run_oracle(rep, 'C02', 'fold-of-update reference vs Builder.build', [c['texts'] for c in cases] + extra + index_cases, judge)
+    base.run_oracle(rep, 'C02', 'one builder used incrementally (build after every added document, twice)', ([c['texts'] for c in cases] + extra)[:150 if tier == 'quick' else 3000], judge_incremental,
+                    show=lambda t: dict(incremental=True, texts=t))
     rep.count('directed: several integer keys (valid / negative / out of range, any order) merged onto a list', len(index_cases))
     for t in extra:
         rep.case('\n'.join(t), True)
@@ -121,7 +148,7 @@ def load_corr(rep, cases):
 def replay(data):
     r = data['replay']
     if 'input' in r:
-        f = judge(r['input'])
+        f = judge_incremental(r['input']['texts']) if isinstance(r['input'], dict) and r['input'].get('incremental') else judge(r['input'])
         print('replay:', 'property FAILS' if f else 'property holds', f or '')
         return 1 if f else 0
     print('no input to replay; broken obligations:', r)
